@@ -30,8 +30,8 @@ TIERS = {
                   case_timeout_s=300),
     'thorough': dict(shards=16, cases=80, dnas=8, handed=4, per_member_sources=24,
                      chains=5, proposals=10, max_points=18, all_views_per_case=True,
-                     timeout_s=3000,
-                     case_timeout_s=300),
+                     timeout_s=7200,
+                     case_timeout_s=600),
 }
 RULE = ('case = one random search-space description of gen/spaces.random_space '
         '(<= 3 top-level elements, nesting depth <= 3, <= max_points decision points, '
@@ -387,7 +387,7 @@ def check_node_binding(ctx, sp, m, d, source, case):
       bad = (want, have, ln.value)
   if bad is not None:
     ctx.violation('node-binding', source,
-                  f'DNA {d!r}: node with value {bad[2]!r} answers decision point '
+                  f'{d!r}: node with value {bad[2]!r} answers decision point '
                   f'{bad[0]!r} by position but is bound to {bad[1]!r}', case)
     return 'binding'
   return None
